@@ -139,6 +139,8 @@ def generate(rng, tier):
         elif u < 0.95:
             p1 = (G.number(rng), G.number(rng))
             p2 = (G.number(rng), G.number(rng))
+            if rng.random() < 0.08:
+                p2 = p1                      # zero-length segment
             size = rng.choice([1, 2, 3, 5, 8, 0, -1]) if rng.random() < 0.3 else rng.randint(1, 12)
             cs.append({"kind": "profile", "fn": "profile", "args": [p1, p2, size, _rand_extra(rng)],
                        "op": f"profile {C.enc(list(p1))} {C.enc(list(p2))} {size}"})
@@ -290,7 +292,7 @@ def _check_line(nodes, start, stop, size, spacing, adjust, pixel):
     if len(exp) != len(xs):
         return f"node count {len(xs)} != {len(exp)}"
     for i, (x, e) in enumerate(zip(nodes, exp)):
-        if abs(x - e) > ftol:
+        if not (abs(x - e) <= ftol):
             return f"node {i} = {float(x)} but evenly spaced nodes from the west/south bound give {float(e)}"
     if not pixel and adjust == "spacing" and len(xs) >= 2 and (xs[0] != float(start) or xs[-1] != float(stop)):
         return f"bounds not hit exactly: {float(xs[0])}, {float(xs[-1])} vs {float(start)}, {float(stop)}"
